@@ -136,3 +136,12 @@ Proof.
     repeat (destruct Hs as [<-|Hs]; [vm_compute; repeat split; reflexivity|]). destruct Hs.
   - eexists. split; [vm_compute; reflexivity|]. split; vm_compute; [discriminate|reflexivity].
 Qed.
+(* ... and the reader, run on those bytes between junk, returns the scan (computed, not derived). *)
+Example C05_bytes_example_run :
+  match write_index 2 1 64 ex_secs with
+  | Ok (bs, _) =>
+      search_bytes (length bs) false (repeatN 7 64 ++ bs ++ [9; 9; 9]) (64 + 48) 1 5 25 = Ok (scan ex_secs 1 5 25)
+      /\ scan ex_secs 1 5 25 = [(104, 1); (105, 1); (106, 1)]
+  | _ => False
+  end.
+Proof. vm_compute. split; reflexivity. Qed.
